@@ -673,12 +673,13 @@ class _Merge(ToolBase):
 
 @_reg(TOOLS, "tee")
 class _Tee(ToolBase):
-    """tee children advanced sequentially in a seeded order; yields (child, item)"""
+    """tee children advanced sequentially in a seeded order - some closed early on the way; yields (child, item)"""
 
     def gen(self, g):
         n = g.ch.between(1, 4)
         items = g.sprinkle(g.items())
-        order = [g.ch.draw(n) for _ in range((len(items) + 1) * n)]
+        # an entry c >= 0 advances child c, an entry -1 - c closes it (a closed child is at its end from then on)
+        order = [g.ch.draw(n) if not g.ch.chance(1, 8) else -1 - g.ch.draw(n) for _ in range((len(items) + 1) * n)]
         return Spec("tee", [g.src(items)], [], {"n": n, "order": tuple(order)})
 
     def a(self, L, spec, S, F):
@@ -690,6 +691,10 @@ class _Tee(ToolBase):
         async def driver():
             try:
                 for c in order:
+                    if c < 0:
+                        await children[-1 - c].aclose()
+                        yield (-1 - c, ("closed",))
+                        continue
                     try:
                         item = await children[c].__anext__()
                     except StopAsyncIteration:
@@ -707,7 +712,15 @@ class _Tee(ToolBase):
         stop = ("stop",)
 
         def driver():
+            closed = set()
             for c in order:
+                if c < 0:
+                    closed.add(-1 - c)  # itertools children have no close: a closed child is one nobody advances
+                    yield (-1 - c, ("closed",))
+                    continue
+                if c in closed:
+                    yield (c, stop)
+                    continue
                 try:
                     item = next(children[c])
                 except StopIteration:
